@@ -268,10 +268,8 @@ theorem gmParse_congr (fb : List Str) (ea : List (Str × Str)) (dm base : Str) (
   | cons l r ih =>
     have hl : gmLine fb ea dm base pop l = gmLine fb ea dm base pop' l := by
       unfold gmLine
-      split
-      · have : gmPopulate fb ea dm pop = gmPopulate fb ea dm pop' := funext (gmPopulate_congr fb ea dm pop pop' hp)
-        simp only [this]
-      · rfl
+      have : gmPopulate fb ea dm pop = gmPopulate fb ea dm pop' := funext (gmPopulate_congr fb ea dm pop pop' hp)
+      simp only [this]
     simp only [gmParse, hl, ih]
 
 /-- **The listing functions agree on agreeing views.** -/
